@@ -75,14 +75,33 @@ def corpus_cases(ctx):
         jobs += [(n, p, c) for c in pick]
     out, skipped, compiled = [], {}, 0
     seen = set()
+    import vyper.ir.compile_ir, vyper.venom.venom_to_assembly, vyper.venom.stack_spiller  # noqa: load PUSH importers
+    probe_total = A.PushProbe()
     for name, src, cfg in jobs:
+        probe = A.PushProbe()
         try:
-            cd = A.compile_data(name, src, cfg)
-            with anchor_settings(cd.settings):
-                pairs = [("assembly", cd.assembly, cd.bytecode), ("assembly_runtime", cd.assembly_runtime, cd.bytecode_runtime)]
+            with probe:
+                cd = A.compile_data(name, src, cfg)
+                with anchor_settings(cd.settings):
+                    pairs = [("assembly", cd.assembly, cd.bytecode), ("assembly_runtime", cd.assembly_runtime, cd.bytecode_runtime)]
         except Exception as e:  # noqa: compile failures are C20's business; record
             skipped[f"{name}:{type(e).__name__}"] = skipped.get(f"{name}:{type(e).__name__}", 0) + 1
             continue
+        finally:
+            probe_total.calls += probe.calls
+            probe_total.max_seen = max(probe_total.max_seen, probe.max_seen)
+            if probe.min_seen is not None:
+                probe_total.min_seen = probe.min_seen if probe_total.min_seen is None else min(probe_total.min_seen, probe.min_seen)
+            for k, v in probe.sites.items():
+                probe_total.sites[k] = probe_total.sites.get(k, 0) + v
+            if probe.bad and not probe_total.bad:
+                probe_total.bad = probe.bad
+                src_text = src if isinstance(src, str) else str(src)
+                ctx.violation("failing-input", "a compiler path calls PUSH with a value outside [0, 2^256): "
+                              "the emitted bytes do not push it (push_total hypothesis violated)",
+                              {"contract": name, "source": src_text, "config": cfg.name, "calls": probe.bad},
+                              key=f"c16:push-out-of-range:{probe.bad[0]['call_site']}")
+                ctx.extra["push_probe_found"] = True
         compiled += 1
         for which, asm, code in pairs:
             r = real_assemble(asm, cfg.evm)
@@ -93,6 +112,9 @@ def corpus_cases(ctx):
             seen.add(key)
             out.append(dict(name=name, cfg=cfg, which=which, evm=cfg.evm, asm=asm, code=code, sm=r[2], cm=r[3],
                             term=term, L=L, C=C, cd=cd, fresh=fresh))
+    ctx.corr["push_probe"] = {"calls": probe_total.calls, "min_argument": str(probe_total.min_seen),
+                              "max_argument_bits": probe_total.max_seen.bit_length() if probe_total.max_seen >= 0 else None,
+                              "out_of_range_calls": len(probe_total.bad), "call_sites": probe_total.sites}
     ctx.corr["corpus_compiled"] = compiled
     ctx.corr["corpus_skipped"] = skipped
     unexpected = {k: v for k, v in skipped.items()
@@ -453,6 +475,7 @@ def run(ctx):
     lap(f"instructions.py differential ({n_instr} cases)")
 
     # Search = the property oracle on all real outputs (always run; cheap)
+    found += 1 if ctx.extra.pop("push_probe_found", False) else 0
     found += run_oracle(ctx, cc + sc)
     found += output_views(ctx, cc)
     found += c16_instr.search(ctx)
